@@ -571,6 +571,9 @@ func do_UNPACK_EX(vm *Vm, counts int32) error {
 func do_SET_ADD(vm *Vm, i int32) error {
 	w := vm.POP()
 	v := vm.PEEK(int(i))
+	if err := py.CheckHashable(w); err != nil {
+		return err
+	}
 	v.(*py.Set).Add(w)
 	return nil
 }
@@ -1005,7 +1008,13 @@ func do_BUILD_TUPLE(vm *Vm, count int32) error {
 
 // Works as BUILD_TUPLE, but creates a set.
 func do_BUILD_SET(vm *Vm, count int32) error {
-	set := py.NewSetFromItems(vm.frame.Stack[len(vm.frame.Stack)-int(count):])
+	items := vm.frame.Stack[len(vm.frame.Stack)-int(count):]
+	for _, item := range items {
+		if err := py.CheckHashable(item); err != nil {
+			return err
+		}
+	}
+	set := py.NewSetFromItems(items)
 	vm.DROPN(int(count))
 	vm.PUSH(set)
 	return nil
